@@ -1291,7 +1291,7 @@ func runC05(f *common.Flags, res *common.Result, m *mdl) {
 	// 5. Put under file-operation faults, lookups on a shared Cache value, descriptor exhaustion
 	faults := ""
 	if f.Replay == "" {
-		faults = runC05Faults(f, res, m)
+		faults = runC05Faults(f, res, m) + "; " + runC05Hash(f, res, m)
 	}
 	res.Rule = faults + "; " + fmt.Sprintf("corpus, a systematic family of entries valid but for one degenerate field (each numeric field blank, a lone digit or sign at each of its 20 positions, signed, zero-padded, overflowing int64/uint64, trailing/inner junk, left-aligned; each of the 2x64 hex positions replaced by non-hex bytes, the other case, another digit; every separator and the header replaced; lengths +-3), %d raw index entries (valid, upper-case hex, wrong lengths, signs, overflowing and malformed numbers, foreign id, bad separators, random bytes) looked up through Get/GetBytes/GetFile, then %d random histories of 3..30 operations over 4 ids and 6 contents (empty, two equal-length pairs, one 40000-byte content) mixing Put/PutBytes/Get/GetBytes/GetFile/OutputFile with truncate/extend/flip/delete/replace of index and data files and raw entries; every result (found or not, bytes, size, OutputID, time, file name) and the final directory listing with contents are compared with the model; direct oracles: SHA-256 of returned bytes, os.Stat size of the named file, no panic, Put-then-GetBytes/GetFile; a history is non-trivial when it contains both a successful and a rejected GetBytes/GetFile; finally %d histories run call by call through the os-shimmed copy of the package, where beside the result the sequence of file operations of every Put/PutBytes/Get/GetBytes/GetFile/OutputFile (with the Stat/Chtimes of c.used) is compared with the model's; the extracted booleans c05_holds_on / c05_put_holds_on are evaluated on every history", nCodec, nHist, nTrace)
 }
